@@ -67,6 +67,7 @@ from tensordict.utils import (
     _getitem_batch_size,
     _infer_size_impl,
     _is_number,
+    _LOCK_ERROR,
     _maybe_correct_neg_dim,
     _parse_to,
     _renamed_inplace_method,
@@ -2989,6 +2990,10 @@ class LazyStackedTensorDict(TensorDictBase):
                             f"batch_size of source={input_dict_or_td.batch_size}, batch_size of dest={self.batch_size}, "
                             f"keys in dest but not in source: {{{keys_dest - keys_source}}}."
                         )
+                    if self.is_locked:
+                        # replacing the members is a structural change: inplace=True / ignore_lock
+                        # switch lock_blocked off, but not for this
+                        raise RuntimeError(_LOCK_ERROR)
                     self.__init__(
                         *input_dict_or_td.tensordicts,
                         stack_dim=self.stack_dim,
